@@ -6,7 +6,7 @@
    stated through the exact rational it rounds. *)
 From Coq Require Import ZArith Bool List QArith.
 From Coq Require Import Strings.String Strings.Ascii.
-From YV Require Import Common.Corr Model.DateTime Lemmas.DateTimeLaws Lemmas.DateTimeCivil Lemmas.DateTimeFields Lemmas.DateTimeSpans Gen.DateTimeDecls.
+From YV Require Import Common.Corr Model.DateTime Lemmas.DateTimeLaws Lemmas.DateTimeCivil Lemmas.DateTimeFields Lemmas.DateTimeSpans Lemmas.DateTimeIso Gen.DateTimeDecls.
 Import ListNotations.
 Open Scope Z_scope.
 
@@ -241,6 +241,16 @@ Theorem C20_date_plus_time : forall h, valid_hdt h = true ->
   in_range (wall (dt_date (conv h))) = true.
 Proof. exact date_plus_time. Qed.
 
+(* ISO-8601 text YYYY-MM-DDTHH:MM:SS.ffffff(+|-)HH:MM: parsing the formatted text of ANY valid
+   datetime with a whole-minute offset gives that datetime back (reading AND offset); the text
+   always has the 32 characters of the shape; and the same through the calls, naive = UTC *)
+Theorem C20_iso_roundtrip : forall d,
+  (valid_adt d = true -> off d mod 60000000 = 0 -> iso_parse (iso_format d) = Some (VDt d)) /\
+  List.length (iso_format d) = 32%nat /\
+  (forall h s, valid_hdt h = true -> off (conv h) mod 60000000 = 0 ->
+     eval (OpFormatIso h) = VStr s -> eval (OpParseIso s) = VDt (conv h)).
+Proof. exact (fun d => conj (parse_format d) (conj (format_length d) parse_of_format_call)). Qed.
+
 (* what "float result rounds this rational" means in the correspondence check *)
 Theorem C20_float_tolerance : forall fn fd n d, float_close fn fd n d = true ->
   (Qabs.Qabs ((fn # fd) - (n # d)) * inject_Z 2251799813685248 <= Qabs.Qabs (n # d))%Q.
@@ -299,6 +309,9 @@ Example C20_example :
   eval (OpField FHour (Aware d)) = VInt 16 /\ eval (OpField FDay (Aware d)) = VInt 12 /\
   eval (OpBuild 1970 1 12 16 46 40 0 10800000000) = VDt d /\ eval (OpBuild 1970 2 29 0 0 0 0 0) = VErr RangeErr /\
   eval (OpAdd (Aware {| wall := MAXWALL - 1; off := 0 |}) 1) = VErr RangeErr /\
+  eval (OpFormatIso (Aware d)) = VStr [49;57;55;48;45;48;49;45;49;50;84;49;54;58;52;54;58;52;48;46;48;48;48;48;48;48;43;48;51;58;48;48] /\
+  eval (OpParseIso [49;57;55;48;45;48;49;45;49;50;84;49;54;58;52;54;58;52;48;43;48;51;58;48;48]) = VDt d /\
+  eval (OpParseIso [50;48;50;48;45;48;50;45;51;48;84;48;48;58;48;48;58;48;48;90]) = VErr RangeErr /\
   timestamp_historic d = 989200000000.
 Proof. vm_compute. repeat split. Qed.
 
@@ -318,3 +331,4 @@ Print Assumptions C20_timespan_scale.
 Print Assumptions C20_timespan_order.
 Print Assumptions C20_replace.
 Print Assumptions C20_date_plus_time.
+Print Assumptions C20_iso_roundtrip.
